@@ -92,7 +92,10 @@ func runC04(e *Env) {
 	e.R.Rule = "programs from the structured generator (half of them control-flow heavy: loop form x switch/if/ternary/&& nesting x " +
 		"break/continue/return placement) and every script in the repository, compiled by the real compiler; a case is one code object; " +
 		"distinct by its instruction text; non-trivial when it contains a backward jump and a break/continue/return inside the loop " +
-		"(JUMP_FORWARD/RETURN_VALUE between the loop head and the backward jump)"
+		"(JUMP_FORWARD/RETURN_VALUE between the loop head and the backward jump); " +
+		"plus template-string programs (fragment list incl. empty interpolations x expression context x placement; non-trivial when the template has a `{}`) " +
+		"and nested-loop programs (7 loop forms x 4 containers x exit by exhaustion/break/continue/return, main code or function; a case is one program; " +
+		"non-trivial when a loop without loop variables ends by exhaustion inside another loop)"
 	nProg := 2500
 	if !e.Quick {
 		nProg = 60000
@@ -101,6 +104,7 @@ func runC04(e *Env) {
 	frng := e.Rng.Fork().Fork() // the fragment-only generator's stream (c04frag.go)
 	funrng := e.Rng.Fork().Fork().Fork() // the function-fragment generator's stream (c04fun.go)
 	mvrng := e.Rng.Fork().Fork().Fork().Fork() // the multi-variable statement generator's stream (c04multi.go)
+	obsrng := e.Rng.Fork().Fork().Fork().Fork().Fork() // template strings and nested loops with observed runs (c04obs.go)
 	for i := 0; i < nProg; i++ {
 		r := rng.Fork()
 		o := GenOpts{MaxStmts: 3 + r.Intn(3), MaxDepth: 2 + r.Intn(3), Budget: 60 + r.Intn(200), Funcs: true, Closures: true,
@@ -112,6 +116,7 @@ func runC04(e *Env) {
 		c04CloTie(e, p) // the closure fragment F5 (c04clo.go)
 	}
 	c04Multi(e, mvrng)
+	c04Obs(e, obsrng)
 	c04Directed(e)
 	c04FragDeep(e)
 	// repository scripts
